@@ -4,6 +4,8 @@ Part 1  Parser over an ABSTRACT TOKEN STREAM and an ABSTRACT AST HEAP (pyvc/ext_
 Part 2  NeurolucidaAscToSwc.from_ast / walk_ast on small fixed-shape ASTs (bounded shapes, symbolic numbers).
 Part 3  Lexer on concrete short inputs (effectively bounded: concrete strings).
 """
+import os
+
 import z3
 
 from pyvc import ext_C15 as X
@@ -44,7 +46,10 @@ REMAINING = {"remaining": SpecFn(_remaining, "remaining")}  # tokens not yet con
 
 
 def nxt(v):
-    return to_z3(v["self"].fields["next_token"], "oref")
+    t = v["self"].fields["next_token"]
+    if isinstance(t, Obj):  # a real Token handed out by the linked lexer: the ghost stamp g_idx is its index in the stream
+        return to_z3(t.fields["g_idx"], "int") + 1
+    return to_z3(t, "oref")
 
 
 def tip(v):
@@ -888,7 +893,12 @@ LWF = ("lexer-state-wf", lex_wf)
 
 
 def same_reader(E, v, o):
-    return v["self"].fields["r"] is E.spec_extra["reader"] and set(v["self"].fields) == {"r", "lineno", "column", "next_char"}
+    f = v["self"].fields
+    if not (f["r"] is E.spec_extra["reader"] and set(f) - {"g_cur"} == {"r", "lineno", "column", "next_char"}):
+        return False
+    if "g_cur" in f:  # ghost field of the token-stream link (number of tokens handed out so far, minus one): only the link's ghost code writes it
+        return o is not None and "g_cur" in o["self"].fields and to_z3(f["g_cur"], "int") == to_z3(o["self"].fields["g_cur"], "int")
+    return True
 
 
 READER = ("reader-is-the-same-object-and-no-attribute-added", same_reader)
@@ -941,7 +951,8 @@ def number_languages():
     from pyvc import ext_C15_text as T
 
     (method, ptxt, fl), _ = RF.asc_patterns()
-    return dict(code=T.code_lang(ptxt, fl, method), asc=("ref", "ASC_NUMBER"), plain=("ref", "PLAIN_DECIMAL"), pyfloat=T.PY_FLOAT_LANG)
+    return dict(code=T.code_lang(ptxt, fl, method), code_whole=T.code_lang(ptxt, fl, "fullmatch"), asc=("ref", "ASC_NUMBER"), plain=("ref", "PLAIN_DECIMAL"),
+                pyfloat=T.PY_FLOAT_LANG)
 
 
 def language_transfer(E, fr):
@@ -956,6 +967,7 @@ def language_transfer(E, fr):
         ("number-token-is-entirely-a-number", z3.Implies(z3.And(inl("code"), is_word, inl("pyfloat")), inl("asc")), [inl("code")]),
         ("plain-decimal-numbers-are-numbers", z3.Implies(inl("plain"), inl("code")), [inl("plain")]),
         ("asc-number-converts", z3.Implies(inl("asc"), inl("pyfloat")), [inl("asc")]),
+        ("number-pattern-converts", z3.Implies(inl("code_whole"), inl("pyfloat")), [inl("code_whole")]),
         ("plain-decimal-is-an-asc-number", z3.Implies(inl("plain"), inl("asc")), [inl("plain")]),
     ]
     for lab, body, pats in facts:
@@ -998,8 +1010,13 @@ def register_lexer_chars(R):
         S.eng.assumptions.add(T.A_COUNT)
         return dict(self=S.obj(Lexer), r=r, __ghost__=dict(reader=r, **LEXGHOST))
 
-    R.add(LEX + "__init__", prop="C15", setup=init_setup,
-          ensures=[LWF, READER, ("look-ahead-is-the-first-character", lambda E, v, o: la(v) == z3.If(T.NCH > 0, 0, T.NCH)),
+    def init_ghost(E, v, o):
+        v["self"].fields["g_cur"] = -1  # ghost: no token handed out yet (pyvc/ext_C15.py: linked next())
+
+    R.add(LEX + "__init__", prop="C15", setup=init_setup, ghost_exit=init_ghost, options=dict(ghost_exit_inlined=True),
+          ensures=[LWF, ("reader-stored-and-no-other-attribute", lambda E, v, o: v["self"].fields["r"] is E.spec_extra["reader"]
+                         and set(v["self"].fields) == {"r", "lineno", "column", "next_char", "g_cur"}),
+                   ("look-ahead-is-the-first-character", lambda E, v, o: la(v) == z3.If(T.NCH > 0, 0, T.NCH)),
                    ("position-starts-at-1:1", lambda E, v, o: z3.And(li(v, "lineno") == 1, li(v, "column") == 1))],
           notes="abstract character stream with the cursor at 0")
 
@@ -1080,13 +1097,11 @@ def register_lexer_chars(R):
         return v["result"]
 
     def ttype(v, name):
-        from swcgeom.transforms.neurolucida_asc import TokenType
-
-        return z3.BoolVal(isinstance(tok(v), Obj) and tok(v).fields["type"] is TokenType[name])
+        return X.token_type_z(tok(v)) == X.tt(name)
 
     def tval_text(v, lo, hi):
-        val = tok(v).fields["value"]
-        return T.is_text(val, lo, hi) if isinstance(val, (str, T.SStr)) else z3.BoolVal(False)
+        val = X.token_text(tok(v))
+        return T.is_text(val, lo, hi) if val is not None else z3.BoolVal(False)
 
     def start(o):
         return T.SKIP(la(o))
@@ -1106,17 +1121,12 @@ def register_lexer_chars(R):
         s = start(o)
         e = T.WEND(s)
         K = number_languages()
-        val = tok(v).fields["value"]
-        is_float = z3.And(ttype(v, "FLOAT"), T.inl(K["asc"], s, e), (to_z3(val, "real") == T.FVAL(s, e)) if kind_of_real(val) else z3.BoolVal(False))
+        val = X.token_real(tok(v))
+        is_float = z3.And(ttype(v, "FLOAT"), T.inl(K["asc"], s, e), (val == T.FVAL(s, e)) if val is not None else z3.BoolVal(False))
         is_lit = z3.And(ttype(v, "LITERAL"), tval_text(v, s, e))
         # which of the two: decided by the number test the code applies to the word (its LANGUAGE, read from the repository); the format bounds
         # that language from both sides: a FLOAT token is a decimal number in its entirety, a plain decimal is a FLOAT token
         return z3.Implies(z3.Not(delim(T.CH(s))), z3.And(la(v) == e, z3.If(T.inl(K["code"], s, e), is_float, is_lit), z3.Implies(T.inl(K["plain"], s, e), ttype(v, "FLOAT"))))
-
-    def kind_of_real(val):
-        from pyvc.values import kind_of
-
-        return kind_of(val) in ("real", "int")
 
     def next_book(E, v, o):
         s = start(o)
@@ -1132,7 +1142,16 @@ def register_lexer_chars(R):
         K = number_languages()
         return z3.And(s < T.NCH, z3.Not(delim(T.CH(s))), z3.Not(T.inl(K["asc"], s, T.WEND(s))))
 
-    R.add(LEX + "__next__", prop="C15", setup=lexer_sym_setup, requires=[LWF], modifies=["self"], lemmas=[lex_defs, language_transfer],
+    def token_result(S, frame):
+        """shape of the token at call sites: a Token whose type is an unknown TokenType member, whose value has a text part and a number part"""
+        from swcgeom.transforms.neurolucida_asc import Token, TokenType
+
+        ty = S.int("tok_type")
+        S.assume(z3.And(ty.z >= 1, ty.z <= len(TokenType)))
+        return S.obj(Token, type=X.SymEnum(ty.z, TokenType), value=X.TokenValue(S.real("tok_number").z, T.SStr.fresh(S.eng, "tok_text")),
+                     lineno=S.int("tok_lineno"), column=S.int("tok_column"))
+
+    R.add(LEX + "__next__", prop="C15", setup=lexer_sym_setup, requires=[LWF], modifies=["self"], returns=token_result, lemmas=[lex_defs, language_transfer],
           raises={"StopIteration": ("only-when-nothing-but-blanks-is-left", lambda E, v, o: start(o) == T.NCH),
                   "ValueError": ("only-for-a-word-that-is-not-a-decimal-number", not_a_number)},
           ensures=[LWF, READER,
@@ -1141,8 +1160,116 @@ def register_lexer_chars(R):
                    ("word-token-is-the-WHOLE-maximal-run-of-non-delimiters-FLOAT-iff-it-is-a-number-with-its-value", word_token),
                    ("token-position-is-the-lexer-position-which-counts-the-characters-read", next_book),
                    ("every-token-consumes-at-least-one-character", lambda E, v, o: la(v) > la(o))],
+          options=dict(raises_ensures={"StopIteration": [LWF, READER, ("the-lexer-stays-at-the-end-of-the-text", lambda E, v, o: la(v) == T.NCH)]}),
           notes="abstract character stream: the token and the new look-ahead are functions of the text from the old look-ahead on; "
                 "number test and float() through their languages (regex obligations C15/regex/*)")
+
+
+# ===========================================================================
+# Part 3b: THE LINK between the two levels.  The Parser contracts of Part 1 see `next(self.lexer, None)` as an abstract token
+# stream tok[0..NTOK).  Here the only function that touches the lexer, Parser._read_token (and Parser.__init__, which creates it),
+# is verified on a REAL Lexer over the abstract character stream, with Lexer.__next__ used through its contract: it satisfies the
+# same postconditions the abstract model gives.  The token-stream vocabulary is defined from the text (pyvc/ext_C15.py: A_LINK):
+#     TPOS(k) look-ahead before token k,  NTOK = least k with nothing but blanks after TPOS(k),  TTYPE / TVAL(k) of the token lexed there.
+# Coupling invariant: with c = g_cur (index of the parser's look-ahead token), the lexer's look-ahead is TPOS(c + 1) while
+# c + 1 <= NTOK, and the end of the text afterwards.
+def linked_parser(S, fresh_parser=False):
+    from swcgeom.transforms.neurolucida_asc import Parser
+
+    lex = lexer_obj(S)
+    lex.fields["g_cur"] = S.int("cur")
+    heap = X.new_heap(S)
+    me = S.obj(Parser, lexer=lex, next_token=fresh("oref", "next_token"), source="", g_tip=fresh("ref", "tip"), g_heap=heap)
+    S.eng.ghost["c15"] = {"heap": heap}
+    S.assume(DEPTH(0) == 0)
+    return me
+
+
+def lexer_of(v):
+    return {"self": v["self"].fields["lexer"]}
+
+
+def stream_defs(E, fr):
+    """the definition of NTOK (and the start of TPOS) over the text"""
+    from pyvc import ext_C15_text as T
+
+    k = z3.Int("sd!k")
+    E.assumptions.add(X.A_LINK)
+    E.assume(z3.And(NTOK >= 0, X.TPOS(0) == 0, T.SKIP(X.TPOS(NTOK)) == T.NCH,
+                    z3.ForAll([k], z3.Implies(z3.And(k >= 0, k < NTOK), z3.And(X.TPOS(k) >= 0, T.SKIP(X.TPOS(k)) < T.NCH)), patterns=[X.TPOS(k)])))
+
+
+def coupled(E, v, o):
+    from pyvc import ext_C15_text as T
+
+    c = cur(v)
+    q = la(lexer_of(v))
+    return z3.And(z3.Implies(c + 1 <= NTOK, q == X.TPOS(c + 1)), z3.Implies(c + 1 > NTOK, q == T.NCH))
+
+
+def register_link(R):
+    from pyvc import ext_C15_text as T
+
+    LLWF = ("lexer-state-wf", lambda E, v, o: lex_wf(E, lexer_of(v), None))
+    COUPLED = ("lexer-look-ahead-is-the-start-of-the-next-token", coupled)
+    heap_ok = lambda v: z3.And(H(v, "n") >= 0, H(v, "clock") >= 0)
+
+    def link_setup(S):
+        me = linked_parser(S)
+        return dict(self=me, __ghost__=dict(reader=me.fields["lexer"].fields["r"], **LEXGHOST))
+
+    def lexer_kept(E, v, o):
+        lexv, lexo = v["self"].fields["lexer"], o["self"].fields["lexer"]
+        return (isinstance(lexv, Obj) and lexv.fields["r"] is E.spec_extra["reader"] and set(lexv.fields) == set(lexo.fields)
+                and set(v["self"].fields) == set(o["self"].fields) and v["self"].fields["source"] == o["self"].fields["source"])
+
+    def only_two_touch_the_lexer(E, v, o):
+        """structural: `self.lexer` occurs in Parser.__init__ and Parser._read_token only, so the simulation step below covers every use"""
+        import ast as _ast
+
+        from pyvc import extract
+
+        src = open(os.path.join(extract.REPO, ASC)).read()
+        for cls in [n for n in _ast.parse(src).body if isinstance(n, _ast.ClassDef) and n.name == "Parser"]:
+            for fn in [n for n in cls.body if isinstance(n, _ast.FunctionDef) and n.name not in ("__init__", "_read_token")]:
+                if any(isinstance(x, _ast.Attribute) and x.attr == "lexer" for x in _ast.walk(fn)):
+                    return False
+        return True
+
+    # ------------------------------------------------------------ _read_token (linked)
+    R.add(P + "_read_token", prop="C15", setup=link_setup, lemmas=[lex_defs, stream_defs],
+          requires=[("parser-state-wf-before-or-after-the-first-token", lambda E, v, o: z3.And(cur(v) >= -1, z3.Implies(cur(v) >= 0, nxt(v) == tokref(cur(v))), heap_ok(v))),
+                    LLWF, COUPLED],
+          raises=LEXERR,
+          ensures=[WF, LLWF, COUPLED, consumed(1), ("heap-untouched", heap_unchanged), TIP_KEPT,
+                   ("depth-follows-the-consumed-token", lambda E, v, o: X.depth_step(cur(o))),
+                   ("same-lexer-same-reader-nothing-else-touched", lexer_kept),
+                   ("call-graph/only-__init__-and-_read_token-touch-the-lexer", only_two_touch_the_lexer)],
+          notes="REAL Lexer over the abstract character stream, Lexer.__next__ through its contract: the abstract token-stream model of next(lexer, None) "
+                "used by the other Parser contracts is what this function really does (simulation step; ghost definitions A_LINK)")
+
+    # --------------------------------------------------------------- __init__ (linked)
+    def init_setup(S):
+        from swcgeom.transforms.neurolucida_asc import Parser
+
+        r = T.CharStream(z3.IntVal(0))
+        heap = X.new_heap(S)
+        S.eng.ghost["c15"] = {"heap": heap}
+        S.assume(z3.And(T.NCH >= 0, T.NLC(0) == 0, T.LNL(0) == -1, DEPTH(0) == 0, heap.fields["n"].z >= 0, heap.fields["clock"].z >= 0))
+        S.eng.assumptions.add(T.A_COUNT)
+        me = S.obj(Parser, g_tip=fresh("ref", "tip"), g_heap=heap)
+        return dict(self=me, r=r, source="a.asc", __ghost__=dict(reader=r, **LEXGHOST))
+
+    def init_fields(E, v, o):
+        f = v["self"].fields
+        return (set(f) == {"lexer", "next_token", "source", "g_tip", "g_heap"} and f["source"] == "a.asc" and isinstance(f["lexer"], Obj)
+                and f["lexer"].fields["r"] is E.spec_extra["reader"])
+
+    R.add(P + "__init__", prop="C15", setup=init_setup, lemmas=[lex_defs, stream_defs], raises=LEXERR,
+          ensures=[WF, LLWF, COUPLED, ("look-ahead-is-the-first-token", lambda E, v, o: cur(v) == 0),
+                   ("lexer-on-the-given-reader-and-source-stored", init_fields),
+                   ("heap-untouched", lambda E, v, o: heap_unchanged(E, v, dict(self=E.top_old["self"])))],
+          notes="creates the REAL Lexer on the abstract character stream and reads the first token: establishes the state every other Parser contract assumes")
 
 
 # ===========================================================================
@@ -1368,6 +1495,7 @@ def register(R):
     register_walk_general(R)
     register_astnode(R)
     register_lexer_chars(R)
+    register_link(R)
     register_lexer(R)
 
 
